@@ -163,6 +163,9 @@ def synth(fname, rnd):
             if val.dtype == np.float64 and rnd.random() < DUST:
                 val = _dust(rnd, val, directed)
             x = rnd.random()
+            if x > 0.96 and val.dtype == np.float64 and not binary:
+                val = val.copy()
+                val[(val == 0) & ~np.eye(len(val), dtype=bool)] = np.inf  # a length matrix computed as 1 / W: absent connections are inf
             if x < 0.08:
                 val = (val != 0)  # a boolean mask handed to a routine whatever its name says (retype() makes bool only from 0/1 matrices)
             elif x < 0.13 and val.dtype == np.float64 and np.abs(val).max() > 0:
@@ -246,6 +249,27 @@ def _clouvain(rnd, n):
     return [W], kw
 
 
+def _latD(rnd, n, directed):
+    """the optional distance matrix of the latticisers is a caller-owned array too: absent, the ring distance, a random one,
+    or - as people store symmetric tables - only its upper triangle; float64 or integer"""
+    x = rnd.random()
+    if x < 0.3:
+        return None
+    idx = np.arange(n)
+    D = np.minimum(np.abs(idx[:, None] - idx[None, :]), n - np.abs(idx[:, None] - idx[None, :])).astype(float)
+    if x < 0.5:
+        pass
+    elif x < 0.75:
+        D = np.array([[round(rnd.uniform(0, 5), 3) for _ in range(n)] for _ in range(n)])
+        if not directed:
+            D = (D + D.T) / 2
+    else:
+        D = np.triu(D, 1)
+    if rnd.random() < 0.2:
+        D = np.round(D).astype(np.int64)
+    return D
+
+
 def _sparse(rnd, n):
     """a scipy sparse weighted matrix (counts 1..5) in one of the dtypes users store them in, for the one routine that takes one"""
     W = matrix(rnd, n, False, rnd.random() < 0.5, False, rnd.random() < 0.4)
@@ -262,6 +286,12 @@ def _cis(rnd, n):
 def _nbs(rnd, n):
     from scenarios.c19 import gen_stacks
     x, y, paired, _ = gen_stacks(rnd, 5)
+    if x.dtype.kind == 'f' and rnd.random() < 0.25:
+        # the diagonal of a stack of Fisher-z / correlation matrices is inf or nan; NBS never reads it
+        v = rnd.choice((np.inf, np.nan))
+        for a in (x, y):
+            for i in range(a.shape[0]):
+                a[i, i, :] = v
     return [x, y, rnd.choice((1.0, 2.0))], {'k': 3, 'paired': paired}
 
 
@@ -317,9 +347,11 @@ OVERRIDES = {
     'mean_first_passage_time': lambda r, n: ([matrix(r, n, False, False, False, True, dens=0.9)], {}),
     'diffusion_efficiency': lambda r, n: ([matrix(r, n, False, False, False, True, dens=0.9)], {}),
     'randmio_und_connected': lambda r, n: ([_ring(7, r), 1], {}),
-    'latmio_und_connected': lambda r, n: ([_ring(7, r), 1], {}),
+    'latmio_und_connected': lambda r, n: ([_ring(7, r), 1], {'D': _latD(r, 7, False)}),
+    'latmio_und': lambda r, n: ([_ring(7, r), 1], {'D': _latD(r, 7, False)}),
+    'latmio_dir': lambda r, n: ([_dring(7, r), 1], {'D': _latD(r, 7, True)}),
     'randmio_dir_connected': lambda r, n: ([_dring(7, r), 1], {}),
-    'latmio_dir_connected': lambda r, n: ([_dring(7, r), 1], {}),
+    'latmio_dir_connected': lambda r, n: ([_dring(7, r), 1], {'D': _latD(r, 7, True)}),
     'randomizer_bin_und': lambda r, n: ([(_ring(8, r) != 0).astype(float), 1], {}),
     'null_model_und_sign': lambda r, n: ([matrix(r, n, True, False, False, True, dens=0.8)], {'bin_swaps': 1, 'wei_freq': r.choice((0.3, 1))}),
     'null_model_dir_sign': lambda r, n: ([matrix(r, n, True, True, False, True, dens=0.8)], {'bin_swaps': 1, 'wei_freq': r.choice((0.3, 1))}),
